@@ -44,7 +44,7 @@ def judge(prop: str, case: dict, col, also: tuple[str, ...] = ()) -> None:  # no
     col.count("events_logged", res["nevents"])
     seen = set()
     for p, clause, detail in res["viol"]:
-        if p != prop and p not in also:
+        if p != prop and p not in also and p != "ALL":
             col.count(f"other_property_clause:{p}:{clause}")
             continue
 
